@@ -889,6 +889,11 @@ theorem C05_fact_keys :
         (t!"stdio_server.responses", t!"uint64OfInt64", [t!"parseRequestID"], true, [t!"stdioServerInternal.HandleResponse"]),
         (t!"streamable_server.pendingRequests", t!"idKey", [t!"idKey"], true, [t!"responseManager.DeliverResponse"]) ] := by decide
 
+/-- **The sessions a broadcast / filtered send goes through are all stored sessions**: `SessionManager.GetActiveSessions`
+    has no condition and skips nothing (a session is stored until it is terminated or swept; as long as `GetSession` serves
+    it, it is in the list — `sessions` of the model). -/
+theorem C05_fact_active_sessions_unfiltered : Mcp.Gen.pdActiveSessionsConds = [] := by decide
+
 /-- **No deadline is left on a listening stream's connection**: the only deadlines / connection timeouts library code sets
     (root package, internal/sseutil, internal/httputil) are the two `SetWriteDeadline(time.Now())` calls on the exit path of
     the GET handlers (`handleSSE`, `handleGet`: they end the handler, nothing is written afterwards). No write of a
